@@ -423,7 +423,7 @@ def check_history(case, sub="sched"):
 
 
 def check_stop(case):
-    return check_history(case, sub="stop")
+    return check_history(case, sub="stoprun")
 
 
 # ---------------------------------------------------------------------------------------
